@@ -3309,3 +3309,293 @@ def counting_model(P, R):
                 'the support; pick_iter = the models over support and '
                 'care variables, each once')
     return n
+
+
+def levels_model(P, R):
+    """`BDD._levels()` interpreted on small managers, among them managers
+    with nodes that nothing refers to and one whose `vars` lists the
+    names in another order than the levels: the index has one entry per
+    variable level (none for the terminal's) holding exactly the nodes
+    stored at that level - every node of the table, referenced or not -
+    in sets of its own."""
+    import itertools
+    f = P.func('dd.bdd.BDD._levels')
+    stubs = ClassStubs(P, 'dd.bdd.BDD')
+    resolver = interp.ModuleEnv(P, 'dd.bdd', stubs)
+    names = ['a', 'b', 'c']
+    rows = list(itertools.product((False, True), repeat=3))
+
+    def tt(fn):
+        return tuple(bool(fn(*r)) for r in rows)
+    funcs = [tt(lambda a, b, c: a and not b),
+             tt(lambda a, b, c: (b if a else c)),
+             tt(lambda a, b, c: b != c)]
+    cases = [(['a', 'b', 'c'], [0, 1, 2], False, None),
+             (['c', 'a', 'b'], [0], True, None),
+             (['b', 'c', 'a'], [1], True, ['a', 'b', 'c']),
+             (['a', 'b', 'c'], [], False, None)]
+    bad = None
+    n = 0
+    for order, externals, garbage, declared in cases:
+        n += 1
+        base, ext = _build_manager(order, funcs, externals, garbage,
+                                   declared)
+        obj = _object_manager(copy.deepcopy(
+            {k: v for k, v in base.items() if k != 'self'}))
+        try:
+            out, _ = interp.run_function(f.node, {'self': obj}, stubs,
+                                         resolver)
+        except interp.Unknown as e:
+            R.undecided('R-LEVELSET', f.qualname, 'levels model', str(e))
+            return None
+        succ = obj.attrs['_succ']
+        want = {k: set() for k in obj.attrs['vars'].values()}
+        for u, t in succ.items():
+            if u != 1:
+                want[t[0]].add(u)
+        what = f'variables {obj.attrs["vars"]}, nodes {succ}'
+        if out[0] != 'return' or not isinstance(out[1], dict):
+            bad = f'{what}: {out[0]} {out[1]!r}'
+        elif {k: set(v) for k, v in out[1].items()} != want:
+            bad = (f'{what}: _levels() gives {out[1]}; the nodes are at '
+                   f'{want}: swap pops and rewrites the unique-table '
+                   'entries of the listed nodes only, so an unlisted node '
+                   'keeps its old (level, low, high) key and collides '
+                   'with a moved one')
+        elif len({id(v) for v in out[1].values()}) != len(out[1]):
+            bad = f'{what}: two levels share one set object'
+        if bad:
+            break
+    if bad:
+        R.violation('R-LEVELSET', 'index-incomplete', f.qualname,
+                    '_levels', bad, unit=f.unit.rel, line=f.lineno)
+    else:
+        R.holds('R-LEVELSET', f.qualname,
+                f'levels model ({n} managers): one entry per variable '
+                'level with exactly the nodes stored there, referenced '
+                'or not')
+    return n
+
+
+def wrapper_model(P, R):
+    """The wrapper that `_try_to_reorder` puts around an operation,
+    interpreted with a recording operation and a recording `reorder`:
+    an operation that succeeds is called once and nothing else happens;
+    a request for reordering from the outermost decorated call is served
+    (requests switched off while `reorder` runs, the operation repeated
+    with the same arguments, requests switched on again also when the
+    repetition raises); a request inside a nested decorated call is
+    passed on; any other exception is passed on; the nesting flag is
+    restored on every way out."""
+    outer = P.func('dd.bdd._try_to_reorder')
+    wrappers = [n for n in outer.node.body
+                if isinstance(n, ast.FunctionDef)]
+    if len(wrappers) != 1:
+        raise AnalysisError('dd.bdd._try_to_reorder: expected one nested '
+                            'wrapper function')
+    w = wrappers[0]
+    resolver = interp.ModuleEnv(P, 'dd.bdd')
+    problems = dict()
+    n = 0
+    scenarios = [
+        ('the operation succeeds', False, ['ok']),
+        ('the operation asks for reordering, then succeeds', False,
+         ['need', 'ok']),
+        ('a nested call asks for reordering', True, ['need']),
+        ('the operation raises ValueError', False, ['error']),
+        ('the operation asks for reordering, then raises ValueError',
+         False, ['need', 'error']),
+    ]
+    try:
+        for what, nested, script in scenarios:
+            n += 1
+            bdd = interp.Sym('bdd', {'_reordering_context': nested,
+                                     '_last_len': 5})
+            log = []
+            todo = list(script)
+
+            def func(*args, **kw):
+                log.append(('call', args[1:], tuple(sorted(kw.items())),
+                            bdd.attrs['_last_len'],
+                            bdd.attrs['_reordering_context']))
+                step = todo.pop(0) if todo else 'ok'
+                if step == 'need':
+                    raise interp.Raised('_NeedsReordering')
+                if step == 'error':
+                    raise interp.Raised('ValueError')
+                return 42
+
+            def reorder(m, call, args, kw):
+                log.append(('reorder', bdd.attrs['_last_len']))
+                return None
+            stubs = {'reorder': reorder,
+                     '__len__': lambda m, c, a, k: 10}
+            a = w.args
+            env = {'func': func, a.args[0].arg: bdd}
+            if a.vararg:
+                env[a.vararg.arg] = (3, 4)
+            if a.kwarg:
+                env[a.kwarg.arg] = {'k': 1}
+            out, _ = interp.run_function(w, env, stubs, resolver)
+            calls = [x for x in log if x[0] == 'call']
+            reorders = [x for x in log if x[0] == 'reorder']
+            flag = bdd.attrs['_reordering_context']
+            last = bdd.attrs['_last_len']
+            bad = None
+            if flag is not nested:
+                bad = (f'the nesting flag is left {flag!r} (was '
+                       f'{nested!r})')
+            elif any(c[1] != (3, 4) or c[2] != (('k', 1),)
+                     for c in calls):
+                bad = (f'the operation is called with {calls}: not the '
+                       'arguments of the call')
+            elif any(not c[4] for c in calls):
+                bad = ('the operation runs with the nesting flag off: a '
+                       'decorated call inside it would serve requests')
+            elif script == ['ok']:
+                if out != ('return', 42) or len(calls) != 1 or reorders \
+                        or last != 5:
+                    bad = (f'result {out}, {len(calls)} call(s), '
+                           f'{len(reorders)} reordering(s), _last_len '
+                           f'{last}')
+            elif script == ['need', 'ok']:
+                if out != ('return', 42) or len(calls) != 2 or \
+                        len(reorders) != 1:
+                    bad = (f'result {out}, {len(calls)} call(s), '
+                           f'{len(reorders)} reordering(s)')
+                elif reorders[0][1] is not None:
+                    bad = ('reorder() runs while requests are still '
+                           'enabled (`_last_len` not None): swap itself '
+                           'raises the signal')
+                elif calls[1][3] is not None:
+                    bad = ('the repetition runs with requests enabled: '
+                           'it can ask again, for ever')
+                elif last is None:
+                    bad = ('requests stay switched off after the call '
+                           '(`_last_len` is None): dynamic reordering is '
+                           'disabled from now on')
+            elif script == ['need']:
+                if out != ('raise', '_NeedsReordering') or reorders or \
+                        len(calls) != 1:
+                    bad = (f'result {out}, {len(reorders)} '
+                           'reordering(s): a nested call must pass the '
+                           'request on to the outermost one')
+            elif script == ['error']:
+                if out != ('raise', 'ValueError') or reorders or \
+                        last != 5 or len(calls) != 1:
+                    bad = f'result {out}, _last_len {last}'
+            elif script == ['need', 'error']:
+                if out != ('raise', 'ValueError') or len(reorders) != 1:
+                    bad = f'result {out}, {len(reorders)} reordering(s)'
+                elif last is None:
+                    bad = ('the repetition raised and requests stay '
+                           'switched off (`_last_len` is None)')
+            if bad:
+                problems.setdefault('protocol', f'{what}: {bad}')
+    except interp.Unknown as e:
+        R.undecided('R-REORD', outer.qualname + '._wrapper',
+                    'wrapper model', str(e))
+        return None
+    q = outer.qualname + '._wrapper'
+    for sub, msg in sorted(problems.items()):
+        R.violation('R-REORD', sub, q, 'wrapper', msg,
+                    unit=outer.unit.rel, line=w.lineno)
+    if not problems:
+        R.holds('R-REORD', q,
+                f'wrapper model ({n} scenarios): one call when it '
+                'succeeds; a request from the outermost call is served '
+                'with requests off, same arguments, requests on again '
+                'whatever the repetition does; nested requests and other '
+                'exceptions passed on; nesting flag restored')
+    return n
+
+
+def tempdir_model(P, R):
+    """`dd._copy.dump_json` and `load_json` interpreted with recording
+    models of the directory calls, the shelf, the file and the worker
+    (`_dump_json` / `_load_json`): the temporary directory is created
+    once and removed on every way out - also when the file cannot be
+    opened and when the worker raises - and it is not touched when it
+    could not be created (it is then someone else's)."""
+    resolver = interp.ModuleEnv(P, 'dd._copy')
+    problems = dict()
+    n = 0
+    try:
+        for q, worker in (('dd._copy.dump_json', '_dump_json'),
+                          ('dd._copy.load_json', '_load_json')):
+            f = P.func(q)
+            for scenario in ('fine', 'open-fails', 'worker-fails',
+                             'mkdir-fails'):
+                n += 1
+                log = []
+
+                def makedirs(m, c, a, k):
+                    log.append('makedirs')
+                    if scenario == 'mkdir-fails':
+                        raise interp.Raised('FileExistsError')
+
+                def rmtree(m, c, a, k):
+                    log.append('rmtree')
+
+                def open_(m, c, a, k):
+                    log.append('open')
+                    if scenario == 'open-fails':
+                        raise interp.Raised('FileNotFoundError')
+                    return interp.Sym('file')
+
+                def work(m, c, a, k):
+                    log.append('work')
+                    if scenario == 'worker-fails':
+                        raise interp.Raised('ValueError')
+                    return ['loaded']
+                stubs = {
+                    'makedirs': makedirs, 'rmtree': rmtree, 'open': open_,
+                    worker: work, 'join': lambda m, c, a, k: 'tmp/shelf',
+                    '_open_shelf': lambda m, c, a, k: interp.Sym('shelf'),
+                }
+                env = {p: interp.Sym(p) for p in f.params}
+                out, _ = interp.run_function(f.node, env, stubs, resolver)
+                made = log.count('makedirs')
+                removed = log.count('rmtree')
+                what = f'{q}, {scenario}: calls {log}'
+                if scenario == 'mkdir-fails':
+                    if out[0] != 'raise' or removed or 'work' in log:
+                        problems.setdefault((f, 'rmtree'), (
+                            f'{what}: the directory could not be created '
+                            '(it exists: another dump or load is using '
+                            'it) and is removed or used all the same'))
+                    continue
+                if made != 1 or removed != 1 or \
+                        log.index('rmtree') < log.index('makedirs'):
+                    problems.setdefault((f, 'makedirs'), (
+                        f'{what}: the temporary directory is created '
+                        f'{made} time(s) and removed {removed} time(s): '
+                        'when it stays, every later JSON dump or load '
+                        'fails with FileExistsError'))
+                    continue
+                if 'work' in log and log.index('rmtree') < log.index(
+                        'work'):
+                    problems.setdefault((f, 'rmtree'), (
+                        f'{what}: the directory is removed before the '
+                        'work is done'))
+                want = {'fine': 'return', 'open-fails': 'raise',
+                        'worker-fails': 'raise'}[scenario]
+                if out[0] not in (want, 'fall' if want == 'return'
+                                  else want):
+                    problems.setdefault((f, 'swallowed'), (
+                        f'{what}: ends with {out}'))
+    except interp.Unknown as e:
+        R.undecided('R-PAIR', 'dd._copy (temporary directory)',
+                    'temporary directory model', str(e))
+        return None
+    for (f, sub), msg in sorted(problems.items(),
+                                key=lambda kv: (kv[0][0].qualname,
+                                                kv[0][1])):
+        R.violation('R-PAIR', 'tempdir-leak', f.qualname, sub, msg,
+                    unit=f.unit.rel, line=f.lineno)
+    if not problems:
+        R.holds('R-PAIR', 'dd._copy (temporary directory)',
+                f'temporary directory model ({n} runs): created once, '
+                'removed on every way out, left alone when it could not '
+                'be created')
+    return n
